@@ -10,12 +10,29 @@ type bucket []byte
 
 type reader struct {
 	m map[byte][]bucket
+
+	// at holds for every value in m the number of delimiters read before it
+	at map[byte][]int
+
+	// limit hides the values which were read after more than limit
+	// delimiters, if not negative
+	limit int
 }
 
 func newReader(r io.Reader) (*reader, error) {
-	m, err := read(r)
+	m, at, err := read(r)
 
-	return &reader{m}, err
+	return &reader{m, at, -1}, err
+}
+
+// position returns the number of delimiters read before the next value of tag,
+// or -1 if there is no value left for tag.
+func (r *reader) position(tag byte) int {
+	if at := r.at[tag]; len(r.m[tag]) > 0 && len(at) > 0 && (r.limit < 0 || at[0] <= r.limit) {
+		return at[0]
+	}
+
+	return -1
 }
 
 func (r *reader) readByte(tag byte) (byte, error) {
@@ -31,7 +48,7 @@ func (r *reader) eof() bool {
 }
 
 func (r *reader) len(tag byte) int {
-	if list := r.m[tag]; list != nil && len(list) > 0 {
+	if list := r.m[tag]; r.position(tag) >= 0 {
 		return len(list[0])
 	}
 
@@ -41,15 +58,17 @@ func (r *reader) len(tag byte) int {
 func (r *reader) readBytes(tag byte) ([]byte, error) {
 	list := r.m[tag]
 
-	if len(list) == 0 {
+	if r.position(tag) < 0 {
 		return nil, io.EOF
 	}
 
 	b := list[0]
 	if len(list) > 1 {
 		r.m[tag] = append(list[:0], list[1:]...)
+		r.at[tag] = append(r.at[tag][:0], r.at[tag][1:]...)
 	} else {
 		delete(r.m, tag)
+		delete(r.at, tag)
 	}
 
 	return b, nil
@@ -199,8 +218,9 @@ func (r *reader) readFloat32(tag byte) (float32, error) {
 	return math.Float32frombits(bits), nil
 }
 
-func read(r io.Reader) (map[byte][]bucket, error) {
+func read(r io.Reader) (map[byte][]bucket, map[byte][]int, error) {
 	var h = map[byte][]bucket{}
+	var at = map[byte][]int{}
 
 	var tag, n byte
 	// delimiters counts the delimiters read so far; seen holds its value
@@ -212,15 +232,15 @@ func read(r io.Reader) (map[byte][]bucket, error) {
 			if err == io.EOF {
 				break
 			}
-			return nil, err
+			return nil, nil, err
 		}
 		if err := binary.Read(r, binary.LittleEndian, &n); err != nil {
-			return nil, err
+			return nil, nil, err
 		}
 
 		var v = make([]byte, n)
 		if err := binary.Read(r, binary.LittleEndian, &v); err != nil {
-			return nil, err
+			return nil, nil, err
 		}
 
 		if len(v) > 0 {
@@ -230,6 +250,7 @@ func read(r io.Reader) (map[byte][]bucket, error) {
 			} else {
 				// first value of tag, or first after a delimiter
 				h[tag] = append(h[tag], v)
+				at[tag] = append(at[tag], delimiters)
 			}
 			seen[tag] = delimiters
 		}
@@ -239,5 +260,5 @@ func read(r io.Reader) (map[byte][]bucket, error) {
 		}
 	}
 
-	return h, nil
+	return h, at, nil
 }
